@@ -188,6 +188,7 @@ func init() {
 	register("C13", func(c *Ctx, r *Report) {
 		r.Decides("phase order delete ≺ replace ≺ update with the prefix and the matching request field; per-replace delete-then-write in one iteration; slices iterated in message order with the prefix joined; no notification or path skipped outside the best-effort error branch; the atomic prefix-delete exactly under n.Atomic.",
 			"equivalence with a path→value reference model for all request sequences.")
+		rulePathKeyCanon(c, r)
 		ruleSetOrder(c, r)
 		ruleWildcardOpt(c, r)
 		ruleKeyMapLookupN(c, r, 4, "ytypes", "node.go", "gnmi.go", "list.go")
@@ -437,6 +438,7 @@ func init() {
 	register("C10", func(c *Ctx, r *Report) {
 		r.Decides("the structural half of set-then-get: the SetNode value is written only where the path is exhausted, with the addressed field's schema and parent; all other writes of the retrieveNode family are creation/deletion gated by flags; list entries created along the path get their key leaves from the path's key strings through the per-kind parsers, which agree with the key renderer for every key kind; payloads are decoded per kind with every parse error returned and no lossy float→integer conversion; '*' and missing keys select several entries only under GetNode's explicit options.",
 			"that GetNode returns exactly the stored value for every payload (value level); the frame condition for all trees beyond the write-site rule; sequences of sets.")
+		rulePathKeyCanon(c, r)
 		ruleChoiceTagLookup(c, r)
 		ruleSetAtTarget(c, r)
 		ruleWriteGated(c, r)
